@@ -532,3 +532,48 @@ fn k_canary_must_fail() {
     kani::assert(a.inner().strong() == s, "X.canary.kani_refutes_a_false_claim");
     core::mem::forget(a);
 }
+
+/// raw round trips with an over-aligned payload (the value does not sit directly behind the counters)
+#[repr(align(64))]
+struct Wide(u8);
+
+#[kani::proof]
+fn u7_identity_overaligned() {
+    let a = Rc::new(Wide(5));
+    let pa = a.ptr;
+    let (s, w) = any_counts();
+    set_counts(&a, s, w);
+    let raw = Rc::into_raw(a);
+    kani::assert(unsafe { (*raw).0 } == 5, "U7.into_raw.points_at_value");
+    let a2 = unsafe { Rc::from_raw(raw) };
+    kani::assert(a2.ptr == pa, "U7.raw_roundtrip.same_allocation");
+    kani::assert(a2.inner().strong() == s && a2.inner().weak() == w, "U7.raw_roundtrip.counts_untouched");
+    let wk = weak_of(&a2);
+    let wraw = wk.into_raw();
+    kani::assert(wraw == raw, "U7.weak_into_raw.points_at_value");
+    let wk2 = unsafe { Weak::from_raw(wraw) };
+    kani::assert(wk2.ptr == pa, "U7.weak_raw_roundtrip.same_allocation");
+    core::mem::forget((wk2, a2));
+}
+
+/// C12: the raw count functions on an object that takes part in adoptions go through the full drop
+/// dispatch (the reachability trace runs exactly once when a non-final handle is released)
+#[kani::proof]
+#[kani::unwind(6)]
+#[kani::stub(crate::drop::drop_unreachable_with_adoptions, stub_dua)]
+#[kani::stub(crate::drop::drop_cycle, stub_dc)]
+#[kani::stub(crate::rc::Rc::orphaned_cycle, stub_oc)]
+fn u8_strong_count_raw_adopted() {
+    let a = Rc::new(3u8);
+    let (s, w) = any_counts();
+    kani::assume(s >= 2 && s < MAX - 1 && w >= 1);
+    set_counts(&a, s, w);
+    install(&a, bwd(&a), 1);
+    let raw = Rc::as_ptr(&a);
+    unsafe { Rc::increment_strong_count(raw) };
+    kani::assert(a.inner().strong() == s + 1 && unsafe { GROUP_CALLS } == 0, "U8.increment_strong_count_adopted.plus_one_no_trace");
+    unsafe { Rc::decrement_strong_count(raw) };
+    kani::assert(a.inner().strong() == s && a.inner().weak() == w, "U8.decrement_strong_count_adopted.minus_one");
+    kani::assert(unsafe { GROUP_CALLS } == 1, "U8.decrement_strong_count_adopted.runs_the_reachability_trace_once");
+    core::mem::forget(a);
+}
